@@ -151,6 +151,10 @@ impl GenDoc {
     fn tf(&self, t: usize) -> u32 {
         self.counts.iter().filter(|c| c.0 == t).map(|c| c.1).sum()
     }
+    /// occurrences of the two-term phrase `a b` (a != b): adjacent runs
+    fn phrase_count(&self, a: usize, b: usize) -> u32 {
+        self.counts.windows(2).filter(|w| w[0].0 == a && w[1].0 == b && w[0].1 > 0 && w[1].1 > 0).count() as u32
+    }
     fn text(&self) -> String {
         let mut toks: Vec<&str> = vec![];
         for (t, c) in &self.counts {
@@ -166,6 +170,20 @@ struct DocsSpec {
     n: usize,
     /// 0: short docs; 1: one document per field-norm bucket (sweep); 2: mixed with a few long ones
     profile: u8,
+    /// share of the documents deleted after indexing (the statistics keep counting them)
+    delete_permille: u64,
+}
+
+fn deleted_ids(spec: &DocsSpec) -> std::collections::HashSet<u64> {
+    let mut out = std::collections::HashSet::new();
+    if spec.delete_permille > 0 && spec.n > 1 {
+        let mut rng = Rng(spec.seed ^ 0xdead_beef);
+        let k = ((spec.n as u64 * spec.delete_permille) / 1000).max(1);
+        for _ in 0..k {
+            out.insert(rng.below(spec.n as u64));
+        }
+    }
+    out
 }
 
 fn gen_docs(spec: &DocsSpec) -> Vec<GenDoc> {
@@ -212,10 +230,10 @@ struct Built {
     body: Field,
 }
 
-fn build(docs: &[GenDoc], cuts: &[usize]) -> Built {
+fn build(docs: &[GenDoc], cuts: &[usize], deleted: &std::collections::HashSet<u64>) -> Built {
     let mut sb = Schema::builder();
     let body = sb.add_text_field("body", TEXT);
-    let id = sb.add_u64_field("id", FAST);
+    let id = sb.add_u64_field("id", FAST | tantivy::schema::INDEXED);
     let index = Index::create_in_ram(sb.build());
     let mut w: IndexWriter = index.writer_with_num_threads(1, 60_000_000).unwrap();
     w.set_merge_policy(Box::new(NoMergePolicy));
@@ -229,6 +247,12 @@ fn build(docs: &[GenDoc], cuts: &[usize]) -> Built {
         w.add_document(doc).unwrap();
     }
     w.commit().unwrap();
+    if !deleted.is_empty() {
+        for d in deleted {
+            w.delete_term(Term::from_field_u64(id, *d));
+        }
+        w.commit().unwrap();
+    }
     w.wait_merging_threads().unwrap();
     Built { index, body }
 }
@@ -264,6 +288,8 @@ impl SegmentCollector for AllHitsSeg {
 #[derive(Clone, Debug)]
 enum Q {
     Term(usize),
+    /// two-term phrase, slop 0 (the phrase count plays the role of tf, idf is summed)
+    Phrase(usize, usize),
     Boost(Box<Q>, f32),
     Const(Box<Q>, f32),
     Should(Vec<Q>),
@@ -275,6 +301,7 @@ impl Q {
     fn build(&self, body: Field) -> Box<dyn Query> {
         match self {
             Q::Term(t) => Box::new(TermQuery::new(Term::from_field_text(body, VOCAB[*t]), IndexRecordOption::WithFreqs)),
+            Q::Phrase(a, b) => Box::new(tantivy::query::PhraseQuery::new(vec![Term::from_field_text(body, VOCAB[*a]), Term::from_field_text(body, VOCAB[*b])])),
             Q::Boost(q, b) => Box::new(BoostQuery::new(q.build(body), *b)),
             Q::Const(q, c) => Box::new(ConstScoreQuery::new(q.build(body), *c)),
             Q::Should(qs) => Box::new(BooleanQuery::new(qs.iter().map(|q| (Occur::Should, q.build(body))).collect())),
@@ -285,6 +312,7 @@ impl Q {
     fn matches(&self, d: &GenDoc) -> bool {
         match self {
             Q::Term(t) => d.tf(*t) > 0,
+            Q::Phrase(a, b) => d.phrase_count(*a, *b) > 0,
             Q::Boost(q, _) | Q::Const(q, _) => q.matches(d),
             Q::Should(qs) | Q::DisMax(qs, _) => qs.iter().any(|q| q.matches(d)),
             Q::Must(qs) => qs.iter().all(|q| q.matches(d)),
@@ -296,6 +324,10 @@ impl Q {
         match self {
             Q::Term(t) => {
                 out.push(format!("t.{}.{fid}.{}", df[*t], d.tf(*t)));
+                (true, 1)
+            }
+            Q::Phrase(a, b) => {
+                out.push(format!("p.{}+{}.{fid}.{}", df[*a], df[*b], d.phrase_count(*a, *b)));
                 (true, 1)
             }
             Q::Boost(q, b) => {
@@ -330,7 +362,7 @@ impl Q {
     }
     fn has_boost(&self) -> bool {
         match self {
-            Q::Term(_) => false,
+            Q::Term(_) | Q::Phrase(_, _) => false,
             Q::Boost(_, _) => true,
             Q::Const(_, _) => false,
             Q::Should(qs) | Q::Must(qs) | Q::DisMax(qs, _) => qs.iter().any(|q| q.has_boost()),
@@ -339,7 +371,7 @@ impl Q {
     /// a ConstScore clause (below a boolean) that does not match `d`
     fn has_nonmatching_const(&self, d: &GenDoc) -> bool {
         match self {
-            Q::Term(_) => false,
+            Q::Term(_) | Q::Phrase(_, _) => false,
             Q::Const(q, _) => !q.matches(d),
             Q::Boost(q, _) => q.has_nonmatching_const(d),
             Q::Should(qs) | Q::Must(qs) | Q::DisMax(qs, _) => qs.iter().any(|q| q.has_nonmatching_const(d)),
@@ -347,7 +379,7 @@ impl Q {
     }
     fn single_clause(&self) -> bool {
         match self {
-            Q::Term(_) | Q::Const(_, _) => true,
+            Q::Term(_) | Q::Const(_, _) | Q::Phrase(_, _) => true,
             Q::Boost(q, _) => q.single_clause(),
             _ => false,
         }
@@ -355,6 +387,7 @@ impl Q {
     fn to_json(&self) -> Value {
         match self {
             Q::Term(t) => json!({"term": t}),
+            Q::Phrase(a, b) => json!({"phrase": [a, b]}),
             Q::Boost(q, b) => json!({"boost": b.to_bits(), "q": q.to_json()}),
             Q::Const(q, c) => json!({"const": c.to_bits(), "q": q.to_json()}),
             Q::Should(qs) => json!({"should": qs.iter().map(|q| q.to_json()).collect::<Vec<_>>()}),
@@ -365,6 +398,7 @@ impl Q {
     fn from_json(v: &Value) -> Option<Q> {
         let list = |v: &Value| -> Option<Vec<Q>> { v.as_array()?.iter().map(Q::from_json).collect() };
         if let Some(t) = v.get("term") { return Some(Q::Term(t.as_u64()? as usize)); }
+        if let Some(t) = v.get("phrase") { return Some(Q::Phrase(t[0].as_u64()? as usize, t[1].as_u64()? as usize)); }
         if let Some(b) = v.get("boost") { return Some(Q::Boost(Box::new(Q::from_json(&v["q"])?), f32::from_bits(b.as_u64()? as u32))); }
         if let Some(b) = v.get("const") { return Some(Q::Const(Box::new(Q::from_json(&v["q"])?), f32::from_bits(b.as_u64()? as u32))); }
         if let Some(l) = v.get("should") { return Some(Q::Should(list(l)?)); }
@@ -383,7 +417,9 @@ fn gen_query(rng: &mut Rng) -> Q {
         ts.into_iter().map(Q::Term).collect()
     };
     let boosts = [2.0f32, 0.5, 3.3, 1.0, 0.1, 7.25];
-    match rng.below(12) {
+    match rng.below(14) {
+        12 => { let a = rng.usize_below(3); let b = (a + 1 + rng.usize_below(2)) % 3; if rng.chance(1, 2) { Q::Phrase(a, 5) } else { Q::Phrase(a, b) } }
+        13 => Q::Boost(Box::new(Q::Phrase(rng.usize_below(2), 5)), 2.0),
         0 | 1 => term(rng),
         2 | 3 => Q::Boost(Box::new(term(rng)), boosts[rng.usize_below(6)]),
         4 => Q::Const(Box::new(term(rng)), [1.0f32, 0.3, 2.5][rng.usize_below(3)]),
@@ -417,15 +453,39 @@ fn open_seg(built: &Built) -> Seg {
 #[allow(clippy::too_many_arguments)]
 fn corpus_case(ctx: &mut Ctx, spec: &DocsSpec, segmentations: &[Vec<usize>], queries: &[Q], explain_samples: usize, rng: &mut Rng) {
     let docs = gen_docs(spec);
-    let case_base = json!({"docs": [spec.seed.to_string(), spec.n, spec.profile], "segmentations": segmentations});
+    let deleted = deleted_ids(spec);
+    let case_base = json!({"docs": [spec.seed.to_string(), spec.n, spec.profile, spec.delete_permille], "segmentations": segmentations});
     // independent recomputation of the formula's inputs from the generated documents
-    let n_docs = docs.len() as u64;
-    let tokens: u64 = docs.iter().map(|d| d.len() as u64).sum();
-    let df: Vec<u64> = (0..VOCAB.len()).map(|t| docs.iter().filter(|d| d.tf(t) > 0).count() as u64).collect();
+    // (with deletes: the statistics keep counting deleted documents, except that a segment whose
+    // documents are ALL deleted is dropped at commit — which depends on the segmentation, so
+    // corpora with deletes use their first segmentation only)
+    let counted = |cuts: &Vec<usize>| -> Vec<bool> {
+        let mut seg_of = vec![0usize; docs.len()];
+        let mut k = 0;
+        for j in 0..docs.len() {
+            if cuts.contains(&j) && j > 0 { k += 1; }
+            seg_of[j] = k;
+        }
+        let mut alive_in_seg = vec![false; k + 1];
+        for j in 0..docs.len() {
+            if !deleted.contains(&(j as u64)) { alive_in_seg[seg_of[j]] = true; }
+        }
+        (0..docs.len()).map(|j| alive_in_seg[seg_of[j]]).collect()
+    };
+    let segmentations: Vec<Vec<usize>> = if deleted.is_empty() { segmentations.to_vec() } else { segmentations[..1].to_vec() };
+    let segmentations = &segmentations[..];
+    let cnt = counted(&segmentations[0]);
+    let n_docs = cnt.iter().filter(|c| **c).count() as u64;
+    let tokens: u64 = docs.iter().zip(&cnt).filter(|(_, c)| **c).map(|(d, _)| d.len() as u64).sum();
+    let df: Vec<u64> = (0..VOCAB.len()).map(|t| docs.iter().zip(&cnt).filter(|(d, c)| **c && d.tf(t) > 0).count() as u64).collect();
+    if n_docs == 0 {
+        return;
+    }
     // scores of single-clause queries per (query index, doc id) in the first segmentation
     let mut reference: HashMap<(usize, u64), u32> = HashMap::new();
     for (si, cuts) in segmentations.iter().enumerate() {
-        let built = build(&docs, cuts);
+        let built = build(&docs, cuts, &deleted);
+        if !deleted.is_empty() { ctx.report.count("corpus-with-deletes"); }
         let seg = open_seg(&built);
         let searcher = &seg.searcher;
         let body = built.body;
@@ -476,7 +536,7 @@ fn corpus_case(ctx: &mut Ctx, spec: &DocsSpec, segmentations: &[Vec<usize>], que
             }
         }
         // the model recomputes everything from the documents themselves (small corpora only)
-        if tokens <= 4000 && si == 0 {
+        if tokens <= 4000 && si == 0 && deleted.is_empty() {
             let segtxt: String = {
                 let mut cutset: Vec<usize> = cuts.clone();
                 cutset.sort();
@@ -498,11 +558,12 @@ fn corpus_case(ctx: &mut Ctx, spec: &DocsSpec, segmentations: &[Vec<usize>], que
         // ---- scores ----
         for (qi, q) in queries.iter().enumerate() {
             let query = q.build(body);
+            ctx.report.count(&format!("query:{}", match q { Q::Term(_) => "term", Q::Phrase(_, _) => "phrase", Q::Boost(_, _) => "boost", Q::Const(_, _) => "const", Q::Should(_) => "should", Q::Must(_) => "must", Q::DisMax(_, _) => "dismax" }));
             let hits = match catch_unwind(AssertUnwindSafe(|| searcher.search(query.as_ref(), &AllHits))) {
                 Ok(Ok(h)) => h,
                 _ => { ctx.report.violation("oracle", "C12:search-failed", format!("scoring collector failed on {}", q.to_json()), case(json!({"query": q.to_json()}))); continue }
             };
-            let expected_matches = docs.iter().filter(|d| q.matches(d)).count();
+            let expected_matches = docs.iter().enumerate().filter(|(j, d)| !deleted.contains(&(*j as u64)) && q.matches(d)).count();
             if hits.len() != expected_matches {
                 // not this property's subject (C03), but scores cannot be compared then
                 ctx.report.notes.push(format!("query {} matched {} documents, expected {expected_matches}", q.to_json(), hits.len()));
@@ -629,7 +690,7 @@ pub fn replay(ctx: &mut Ctx, case: &Value) {
         "corpus" => {
             let d = &case["docs"];
             let (Some(seed), Some(n), Some(profile)) = (d[0].as_str().and_then(|s| s.parse().ok()), d[1].as_u64(), d[2].as_u64()) else { return };
-            let spec = DocsSpec { seed, n: n as usize, profile: profile as u8 };
+            let spec = DocsSpec { seed, n: n as usize, profile: profile as u8, delete_permille: d[3].as_u64().unwrap_or(0) };
             let segs: Vec<Vec<usize>> = case["segmentations"].as_array().map(|a| a.iter().map(|s| s.as_array().map(|x| x.iter().filter_map(|y| y.as_u64().map(|z| z as usize)).collect()).unwrap_or_default()).collect()).unwrap_or_else(|| vec![vec![]]);
             let queries: Vec<Q> = match Q::from_json(&case["at"]["query"]) { Some(q) => vec![q], None => (0..5).map(Q::Term).collect() };
             let mut rng = Rng(1);
@@ -657,12 +718,12 @@ pub fn run(ctx: &mut Ctx) {
         return;
     }
     part_a(ctx);
-    let corpora = ctx.budget(24, 400);
+    let corpora = ctx.budget(80, 1200);
     let mut rng = ctx.rng.fork();
     for c in 0..corpora {
         let profile = (c % 3) as u8;
         let n = match profile { 1 => [112usize, 224, 150][rng.usize_below(3)], 0 => [1usize, 2, 40, 300, 1500][rng.usize_below(5)], _ => [60usize, 400, 900][rng.usize_below(3)] };
-        let spec = DocsSpec { seed: rng.next_u64(), n, profile };
+        let spec = DocsSpec { seed: rng.next_u64(), n, profile, delete_permille: if c % 5 == 4 { [20u64, 200][rng.usize_below(2)] } else { 0 } };
         let how_many = 1 + rng.usize_below(3) + if c % 4 == 0 { 2 } else { 0 };
         let segs = gen_segmentations(&mut rng, n, how_many);
         let mut queries: Vec<Q> = vec![Q::Term(0), Q::Boost(Box::new(Q::Term(1)), 2.0), Q::Const(Box::new(Q::Term(0)), 0.3)];
@@ -672,7 +733,7 @@ pub fn run(ctx: &mut Ctx) {
         let mut r2 = rng.fork();
         corpus_case(ctx, &spec, &segs, &queries, 25, &mut r2);
         if c < 3 {
-            ctx.report.sample(json!({"part": "B", "docs": [spec.seed.to_string(), spec.n, spec.profile], "segmentations": segs, "queries": queries.iter().map(|q| q.to_json()).collect::<Vec<_>>()}));
+            ctx.report.sample(json!({"part": "B", "docs": [spec.seed.to_string(), spec.n, spec.profile, spec.delete_permille], "segmentations": segs, "queries": queries.iter().map(|q| q.to_json()).collect::<Vec<_>>()}));
         }
     }
 }
